@@ -100,6 +100,28 @@ Proof.
       reflexivity.
 Qed.
 
+(* the elements a depth>0 split skips hold no non-default value, before and after being emptied *)
+Lemma is_empty_content d t : is_empty d t = true -> content d t = [].
+Proof.
+  induction t as [v|es IH] using tree_ind'; intros H.
+  - cbn [is_empty] in H. cbn [content]. rewrite H. reflexivity.
+  - cbn [is_empty] in H. cbn [content]. rewrite forallb_forall in H. rewrite Forall_forall in IH.
+    induction es as [|ct es IHes]; [reflexivity|].
+    cbn [flat_map]. rewrite (IH ct (or_introl eq_refl) (H ct (or_introl eq_refl))).
+    cbn [map app]. apply IHes.
+    + intros x Hx. apply IH. right. exact Hx.
+    + intros x Hx. apply H. right. exact Hx.
+Qed.
+
+Lemma skipped_lossless d t :
+  is_empty d t = true -> content d t = [] /\ content d (cleared t) = [] /\ is_empty d (cleared t) = true.
+Proof.
+  intros H. split; [apply is_empty_content; exact H|].
+  destruct t as [v|es]; cbn [cleared].
+  - split; [apply is_empty_content; exact H|exact H].
+  - split; reflexivity.
+Qed.
+
 (* ------------------------------------------------------------------ re-splits *)
 Definition good_bounds (bs : list (Z * option Z)) : Prop :=
   forall s e, In (s, e) bs -> match e with Some z => s < z | None => True end.
